@@ -20,9 +20,32 @@
    wpool.add_task; the task builds its block (BuildBlock) outside the lock, then stores into its own slot
    and increments parts_done inside LockScope m, then notifies cv; the constructor waits for
    parts_done==parts.size() and only then stops and joins the pool (ParBuild section of PoolDefs.v). *)
-From Coq Require Import List String.
+From Coq Require Import List String Bool.
 Import ListNotations.
 Local Open Scope string_scope.
+
+(* Refinement used for the comparison: the skeleton extracted from the source must contain the reference
+   events in order; the ONLY extra events tolerated are additional notifications (NotifyAll / NotifyOne ...),
+   because every theorem about the LTS already allows spurious wake-ups at any time, so an extra notify
+   cannot invalidate them.  Anything else (a lock, an access, a predicate, a removed notify) is a difference. *)
+Definition is_notify (e : string) : bool := String.prefix "Notify" e.
+
+Fixpoint events_refine (gen ref : list string) : bool :=
+  match gen, ref with
+  | [], [] => true
+  | g :: gen', r :: ref' =>
+      if String.eqb g r then events_refine gen' ref'
+      else if is_notify g then events_refine gen' ref else false
+  | g :: gen', [] => is_notify g && events_refine gen' []
+  | [], _ :: _ => false
+  end.
+
+Fixpoint skeleton_refines (gen ref : list (string * list string)) : bool :=
+  match gen, ref with
+  | [], [] => true
+  | (n1, e1) :: gen', (n2, e2) :: ref' => String.eqb n1 n2 && events_refine e1 e2 && skeleton_refines gen' ref'
+  | _, _ => false
+  end.
 
 Definition worker_skeleton_fixed : list (string * list string) :=
   [("WorkerQueue::add_task",
